@@ -20,7 +20,7 @@ RULE = ("scenarios = (station layout anywhere on the globe, topology mesh/line, 
 ASSUMPTIONS = ["receivers inside the C07 tolerance band of a geo area are not judged for that request",
                "store-carry-forward traffic class is only generated when the sender has a neighbour (the SCF buffers are documented stubs)",
                "geo-broadcast/anycast reach is judged in full-mesh topologies (every station hears the source); line topologies judge unicast and the location service"]
-REQUIRED_COUNTERS = ["requests", "expected_deliveries_checked", "forbidden_deliveries_checked", "ls_lookups", "guc_while_ls_pending"]
+REQUIRED_COUNTERS = ["requests", "expected_deliveries_checked", "forbidden_deliveries_checked", "ls_lookups", "guc_while_ls_pending", "relay.deliveries_judged"]
 
 PORTPOOL = (0, 1, 2001, 2002, 2018, 3000, 65535)
 
